@@ -236,6 +236,12 @@ Section Witness.
     exists i2, fget s2 p = VF i2 /\ istep i2 = istep i /\ R_ (imin i) <= R_ (imin i2) /\ R_ (imax i2) <= R_ (imax i).
   Proof. intros s2 s1 p i [_ H] E. specialize (H p). rewrite E in H. destruct (fget s2 p); simpl in H; try tauto. eauto. Qed.
 
+  (* an INTEGER constant: LessThanOrEquals keeps its two setter calls *)
+  Lemma prune_fleq_int_const_r : forall x m c, prune_fleq x (FConst (VlI m)) c = prune_fleq_plain x (FConst (VlI m)) c.
+  Proof. intros. unfold prune_fleq, fv_float_const, fv_float_var. cbn [fv_is_float andb]. rewrite andb_false_r. reflexivity. Qed.
+  Lemma prune_fleq_int_const_l : forall y m c, prune_fleq (FConst (VlI m)) y c = prune_fleq_plain (FConst (VlI m)) y c.
+  Proof. intros. unfold prune_fleq, fv_float_const, fv_float_var. cbn [fv_is_float andb]. rewrite andb_false_r. reflexivity. Qed.
+
   Lemma int_left_child : forall s p d mid, near s -> (p < length s)%nat -> fget s p = VI d -> wf_dom d ->
     (dmin d <= mid < dmax d)%Z -> (exists z, In z d /\ w p = IZR z /\ (z <= mid)%Z) ->
     exists s1 ev, fprune (left_prop p (VlI mid)) (s, []) = Some (s1, ev) /\ near s1 /\ sle s1 s /\ wsafe_below s1 (left_prop p (VlI mid)).
@@ -245,7 +251,7 @@ Section Witness.
     assert (W' : wf_dom (dabove mid d)) by (apply wf_dom_dabove; auto).
     exists (fupd s p (VI (dabove mid d))), [p].
     assert (E1 : fprune (left_prop p (VlI mid)) (s, []) = Some (fupd s p (VI (dabove mid d)), [p])).
-    { simpl. unfold prune_fleq. simpl. unfold xset_max. simpl. rewrite Hg. simpl. unfold dset_max.
+    { cbv beta iota delta [left_prop mk_fleq mk_fgeq fprune]. rewrite ?prune_fleq_int_const_r, ?prune_fleq_int_const_l. unfold prune_fleq_plain. simpl. unfold xset_max. simpl. rewrite Hg. simpl. unfold dset_max.
       destruct W as [Wne Ws]. destruct d as [|d0 dr] eqn:Ed; [congruence|]. rewrite <- Ed in *.
       replace (dempty d) with false by (rewrite Ed; reflexivity).
       replace (mid <? dmin d)%Z with false by (symmetry; apply Z.ltb_ge; lia).
@@ -267,7 +273,7 @@ Section Witness.
       { assert (In (dmax d2) d2) by (apply dmax_In; apply W2). apply Hin in H. apply dabove_In in H. tauto. }
       assert (Hmin : (dmin d2 <= mid)%Z) by (generalize (dmin_le_dmax d2 W2); lia).
       exists s2, []. split; [|split; auto using sle_refl].
-      simpl. unfold prune_fleq. simpl. unfold xset_max. simpl. rewrite Hg2. simpl. unfold dset_max.
+      cbv beta iota delta [left_prop mk_fleq mk_fgeq fprune]. rewrite ?prune_fleq_int_const_r, ?prune_fleq_int_const_l. unfold prune_fleq_plain. simpl. unfold xset_max. simpl. rewrite Hg2. simpl. unfold dset_max.
       destruct W2 as [Wne2 Ws2]. replace (dempty d2) with false by (destruct d2; simpl; congruence).
       replace (mid <? dmin d2)%Z with false by (symmetry; apply Z.ltb_ge; lia).
       replace (mid <? dmax d2)%Z with false by (symmetry; apply Z.ltb_ge; lia).
@@ -284,7 +290,7 @@ Section Witness.
     exists (fupd s p (VI (dbelow (mid + 1) d))), [p].
     assert (E1 : fprune (right_prop p (VlI mid)) (s, []) = Some (fupd s p (VI (dbelow (mid + 1) d)), [p])).
     { simpl. unfold prune_flt. unfold int_below_float_var, int_below_float_const, float_const_below_int. simpl. rewrite Hg. simpl.
-      unfold prune_fleq. simpl. unfold under_interval. simpl. rewrite Hg. simpl.
+      unfold prune_fleq_plain. simpl. unfold under_interval. simpl. rewrite Hg. simpl.
       replace (mid <=? dmax d - 1)%Z with true by (symmetry; apply Z.leb_le; lia).
       unfold xset_min. simpl. rewrite Hg. simpl. unfold dset_min.
       destruct W as [Wne Ws]. replace (dempty d) with false by (destruct d; simpl; congruence).
@@ -305,7 +311,7 @@ Section Witness.
       assert (Hmax : (mid + 1 <= dmax d2)%Z) by (generalize (dmin_le_dmax d2 W2); lia).
       exists s2, []. split; [|split; auto using sle_refl].
       simpl. unfold prune_flt. unfold int_below_float_var, int_below_float_const, float_const_below_int. simpl. rewrite Hg2. simpl.
-      unfold prune_fleq. simpl. unfold under_interval. simpl. rewrite Hg2. simpl.
+      unfold prune_fleq_plain. simpl. unfold under_interval. simpl. rewrite Hg2. simpl.
       replace (mid <=? dmax d2 - 1)%Z with true by (symmetry; apply Z.leb_le; lia).
       unfold xset_min. simpl. rewrite Hg2. simpl. unfold dset_min.
       destruct W2 as [Wne2 Ws2]. replace (dempty d2) with false by (destruct d2; simpl; congruence).
@@ -391,16 +397,17 @@ Section Witness.
   Proof. intros. unfold xset_min. cbn [fst snd]. rewrite H. cbn [var_set_min]. rewrite H0. reflexivity. Qed.
 
   (* what x <= m and x >= m (the two branch propagators on a float pivot) compute *)
-  Lemma left_prop_float : forall s p m, fprune (left_prop p (VlF m)) (s, []) =
+  Lemma left_prop_float : forall s p m i, fget s p = VF i -> fprune (left_prop p (VlF m)) (s, []) =
     match xset_max p (VlF m) (s, []) with
     | None => None
-    | Some c1 => if val_le (var_min (fget (fst c1) p)) (VlF m) then Some c1 else None
+    | Some c1 => if val_lt (VlF m) (var_min (fget (fst c1) p)) then xset_max p (var_min (fget (fst c1) p)) c1 else Some c1
     end.
-  Proof. reflexivity. Qed.
+  Proof. intros s p m i Hg. unfold left_prop, mk_fleq. cbn [fprune]. unfold prune_fleq, fv_float_const, fv_float_var, fv_is_const.
+    cbn [fv_is_float fv_under fst negb andb]. rewrite Hg. cbn [var_is_float andb]. reflexivity. Qed.
   Lemma right_prop_float : forall s p m i, fget s p = VF i -> fprune (right_prop p (VlF m)) (s, []) =
     if fle m (imax i) then xset_min p (VlF m) (s, []) else None.
   Proof. intros s p m i Hg. unfold right_prop, mk_fgt, mk_flt. cbn [fprune]. unfold prune_flt, int_below_float_var, int_below_float_const, float_const_below_int.
-    cbn [fv_is_float negb andb]. unfold prune_fleq. cbn [fv_set_max fv_set_min fv_max fv_min fst].
+    cbn [fv_is_float negb andb]. unfold prune_fleq_plain. cbn [fv_set_max fv_set_min fv_max fv_min fst].
     unfold next_target, next_bound, under_interval. cbn [fv_under fv_is_float]. rewrite Hg. cbn [var_max var_min].
     unfold val_ge, val_le. cbn [as_f]. destruct (fle m (imax i)); reflexivity. Qed.
 
@@ -417,9 +424,9 @@ Section Witness.
     assert (W1 : wf i1) by (unfold i1; repeat split; simpl; auto).
     exists (fupd s p (VF i1)), [p].
     assert (E1 : fprune (left_prop p (VlF m)) (s, []) = Some (fupd s p (VF i1), [p])).
-    { rewrite left_prop_float. rewrite (xset_max_float s p i m i1 true [] Hg E). cbn [fst app].
-      rewrite fget_fupd_same by auto. unfold i1. cbn [var_min imin val_le as_f].
-      replace (fle (imin i) m) with true by (symmetry; apply fle_fin; auto; lra). reflexivity. }
+    { rewrite (left_prop_float s p m i Hg). rewrite (xset_max_float s p i m i1 true [] Hg E). cbn [fst app].
+      rewrite fget_fupd_same by auto. unfold i1. cbn [var_min imin val_lt as_f].
+      replace (flt m (imin i)) with false by (symmetry; apply flt_fin_f; auto; lra). reflexivity. }
     split; [exact E1|]. split; [|split].
     - apply near_fupd; auto. simpl. split; auto. split; auto.
       assert (0 < R_ (istep i)) by auto. assert (201/100 * R_ (istep i) <= T * R_ (istep i)) by (apply Rmult_le_compat_r; lra). lra.
@@ -431,10 +438,10 @@ Section Witness.
       specialize (Hn2 p Hp2) as Hnp. rewrite Hg2 in Hnp. simpl in Hnp. destruct Hnp as (W2 & _).
       assert (W2' := W2). destruct W2' as (A2 & B2 & C2 & D2 & E2). unfold i1 in Lmax2, Lmin2; simpl in Lmax2, Lmin2.
       exists s2, []. split; [|split; auto using sle_refl].
-      rewrite left_prop_float. rewrite (xset_max_float s2 p i2 m i2 false [] Hg2).
+      rewrite (left_prop_float s2 p m i2 Hg2). rewrite (xset_max_float s2 p i2 m i2 false [] Hg2).
       2:{ apply tsmax_ff_above_noop; auto. lra. }
-      cbn [fst]. rewrite fget_fupd_same by auto. cbn [var_min val_le as_f].
-      replace (fle (imin i2) m) with true by (symmetry; apply fle_fin; auto; lra).
+      cbn [fst]. rewrite fget_fupd_same by auto. cbn [var_min val_lt as_f].
+      replace (flt m (imin i2)) with false by (symmetry; apply flt_fin_f; auto; lra).
       rewrite <- Hg2. rewrite fupd_same_id. reflexivity. Qed.
 
   Lemma float_right_child : forall s p i m, near s -> (p < length s)%nat -> fget s p = VF i ->
@@ -545,7 +552,7 @@ Section Witness.
     - assert (Hne : dabove c d <> []). { intro E. apply (dabove_nil_iff c d W) in E. lia. }
       assert (W' : wf_dom (dabove c d)) by (apply wf_dom_dabove; auto).
       exists (fupd s v (VI (dabove c d))), [v]. split; [|split].
-      + simpl. unfold prune_fleq. simpl. unfold xset_max. simpl. rewrite Hg. simpl. unfold dset_max.
+      + cbv beta iota delta [left_prop mk_fleq mk_fgeq fprune]. rewrite ?prune_fleq_int_const_r, ?prune_fleq_int_const_l. unfold prune_fleq_plain. simpl. unfold xset_max. simpl. rewrite Hg. simpl. unfold dset_max.
         destruct W as [Wne Ws]. replace (dempty d) with false by (destruct d; simpl; congruence).
         replace (c <? dmin d)%Z with false by (symmetry; apply Z.ltb_ge; lia).
         replace (c <? dmax d)%Z with true by (symmetry; apply Z.ltb_lt; lia).
@@ -557,7 +564,7 @@ Section Witness.
       + apply near_fupd; auto. simpl. split; auto. exists z. split; auto. apply dabove_In. split; auto.
       + apply sle_fupd; auto. rewrite Hg. simpl. intros x Hx. apply dabove_In in Hx. tauto.
     - exists s, []. split; [|split; auto using sle_refl].
-      simpl. unfold prune_fleq. simpl. unfold xset_max. simpl. rewrite Hg. simpl. unfold dset_max.
+      cbv beta iota delta [left_prop mk_fleq mk_fgeq fprune]. rewrite ?prune_fleq_int_const_r, ?prune_fleq_int_const_l. unfold prune_fleq_plain. simpl. unfold xset_max. simpl. rewrite Hg. simpl. unfold dset_max.
       destruct W as [Wne Ws]. replace (dempty d) with false by (destruct d; simpl; congruence).
       replace (c <? dmin d)%Z with false by (symmetry; apply Z.ltb_ge; lia).
       replace (c <? dmax d)%Z with false by (symmetry; apply Z.ltb_ge; lia).
@@ -575,7 +582,7 @@ Section Witness.
     - assert (Hne : dbelow c d <> []). { intro E. apply (dbelow_nil_iff c d W) in E. lia. }
       assert (W' : wf_dom (dbelow c d)) by (apply wf_dom_dbelow; auto).
       exists (fupd s v (VI (dbelow c d))), [v]. split; [|split].
-      + simpl. unfold prune_fleq. simpl. rewrite Hg. simpl.
+      + cbv beta iota delta [left_prop mk_fleq mk_fgeq fprune]. rewrite ?prune_fleq_int_const_r, ?prune_fleq_int_const_l. unfold prune_fleq_plain. simpl. rewrite Hg. simpl.
         replace (c <=? dmax d)%Z with true by (symmetry; apply Z.leb_le; lia).
         unfold xset_min. simpl. rewrite Hg. simpl. unfold dset_min.
         destruct W as [Wne Ws]. replace (dempty d) with false by (destruct d; simpl; congruence).
@@ -585,7 +592,7 @@ Section Witness.
       + apply near_fupd; auto. simpl. split; auto. exists z. split; auto. apply dbelow_In. split; auto.
       + apply sle_fupd; auto. rewrite Hg. simpl. intros x Hx. apply dbelow_In in Hx. tauto.
     - exists s, []. split; [|split; auto using sle_refl].
-      simpl. unfold prune_fleq. simpl. rewrite Hg. simpl.
+      cbv beta iota delta [left_prop mk_fleq mk_fgeq fprune]. rewrite ?prune_fleq_int_const_r, ?prune_fleq_int_const_l. unfold prune_fleq_plain. simpl. rewrite Hg. simpl.
       replace (c <=? dmax d)%Z with true by (symmetry; apply Z.leb_le; lia).
       unfold xset_min. simpl. rewrite Hg. simpl. unfold dset_min.
       destruct W as [Wne Ws]. replace (dempty d) with false by (destruct d; simpl; congruence).
@@ -758,11 +765,11 @@ Proof. intros T w base v i0 c HT Hv Hg0 Mb0 Hm s Hle Hn.
   destruct (near_tsmax T i c (w v) HT Mb Hni) as (i' & e & Et & Hn' & Hs'). { rewrite Es. lra. }
   assert (Fc : fin c) by (destruct (magn_b_MagnR i c Mb); auto).
   exists (fupd s v (VF i')), (if e then [] ++ [v] else []). split; [|split].
-  - change (mk_fleq (FVar v) (FConst (VlF c))) with (left_prop v (VlF c)). rewrite left_prop_float.
-    rewrite (xset_max_float s v i c i' e [] Hg Et). cbn [fst]. rewrite fget_fupd_same by auto. cbn [var_min val_le as_f].
+  - change (mk_fleq (FVar v) (FConst (VlF c))) with (left_prop v (VlF c)). rewrite (left_prop_float s v c i Hg).
+    rewrite (xset_max_float s v i c i' e [] Hg Et). cbn [fst]. rewrite fget_fupd_same by auto. cbn [var_min val_lt as_f].
     destruct Hn' as (W' & Hlo' & _). simpl in Hs'. destruct Hs' as (Es' & _).
-    replace (fle (imin i') c) with true; [reflexivity|].
-    symmetry. apply fle_fin; auto. apply W'. rewrite Es', Es in Hlo'. lra.
+    replace (flt c (imin i')) with false; [reflexivity|].
+    symmetry. apply flt_fin_f; [exact Fc|apply W'|]. rewrite Es', Es in Hlo'. lra.
   - apply near_fupd; auto.
   - apply sle_fupd; auto. rewrite Hg. exact Hs'. Qed.
 
@@ -778,11 +785,14 @@ Proof. intros T w base v i0 c HT Hv Hg0 Mb0 Hm s Hle Hn.
   destruct (near_tsmin T i c (w v) HT Mb Hni) as (i' & e & Et & Hn' & Hs'). { rewrite Es. lra. }
   assert (Fc : fin c) by (destruct (magn_b_MagnR i c Mb); auto).
   exists (fupd s v (VF i')), (if e then [] ++ [v] else []). split; [|split].
-  - cbn [fprune mk_fleq]. unfold prune_fleq. cbn [fv_set_max fv_set_min fv_max fv_min fst]. rewrite Hg. cbn [var_max].
-    unfold val_ge, val_le. cbn [as_f].
-    destruct Hni as (_ & _ & Hhi). destruct Wi as (A & B & C & D & E).
-    replace (fle c (imax i)) with true by (symmetry; apply fle_fin; auto; rewrite Es in Hhi; lra).
-    apply (xset_min_float s v i c i' e [] Hg Et).
+  - cbn [fprune mk_fleq]. unfold prune_fleq, fv_float_const, fv_float_var, fv_is_const.
+    cbn [fv_is_float fv_under fst negb andb]. rewrite Hg. cbn [var_is_float andb].
+    unfold bound_below. cbn [fv_set_min fv_max fv_min].
+    rewrite (xset_min_float s v i c i' e [] Hg Et). cbn [fst]. rewrite fget_fupd_same by auto. cbn [var_max].
+    unfold val_gt, val_lt. cbn [as_f].
+    destruct Hn' as (W' & _ & Hhi'). simpl in Hs'. destruct Hs' as (Es' & _).
+    replace (flt (imax i') c) with false; [reflexivity|].
+    symmetry. apply flt_fin_f; [apply W'|exact Fc|]. rewrite Es', Es in Hhi'. lra.
   - apply near_fupd; auto.
   - apply sle_fupd; auto. rewrite Hg. exact Hs'. Qed.
 
@@ -831,7 +841,9 @@ Proof. intros T w base x y ix0 iy0 HT Nxy Hx Hy Hgx0 Hgy0 Est M1 M2 M3 M4 Hm s H
   { destruct Hnx' as (_ & Hlo & _). rewrite Es1, Esx in Hlo. rewrite Esy, <- Est. lra. }
   exists (fupd s1 y (VF iy')), (if e2 then (if e1 then [] ++ [x] else []) ++ [y] else (if e1 then [] ++ [x] else [])).
   split; [|split].
-  - cbn [fprune mk_fleq]. unfold prune_fleq. cbn [fv_set_max fv_set_min fv_max fv_min fst]. rewrite Hgy. cbn [var_max].
+  - cbn [fprune mk_fleq]. unfold prune_fleq, fv_float_const, fv_float_var, fv_is_const.
+    cbn [fv_is_float fv_under fst negb andb]. rewrite !andb_false_r. cbn [andb].
+    unfold prune_fleq_plain. cbn [fv_set_max fv_set_min fv_max fv_min fst]. rewrite Hgy. cbn [var_max].
     rewrite (xset_max_float s x ix (imax iy) ix' e1 [] Hgx Et1). cbn [fst]. fold s1.
     unfold s1 at 1. rewrite fget_fupd_same by auto. cbn [var_min].
     apply (xset_min_float s1 y iy (imin ix') iy' e2 _ Hgy1 Et2).
